@@ -16,7 +16,7 @@ func init() {
 	fw.Register(&fw.Property{
 		ID:    "C07",
 		Level: "exploration",
-		Rule: "(a) exhaustive per-column table: for each of the 17x17 symbol pairs (a,b) query = a+PAD, target = b+PAD (PAD unambiguous, equal in both), observed through closest -n |T| --table with measure snp and raw, in four case layouts; (b) random pairs of width 4-400 over the full alphabet for snp/raw and mostly-A/C/G/T pairs with all four bases and <25% divergence for tn93, observed through closest -n |T| --table (|Q|x|T| distances per run), through closest -n K --table with K in {1,2,random} and an optional -d at an occurring distance (each listed row's distance is that of its own pair), through plain closest, plus swapped-file runs for symmetry; " +
+		Rule: "(a) exhaustive per-column table: for each of the 17x17 symbol pairs (a,b) query = a+PAD, target = b+PAD (PAD unambiguous, equal in both), observed through closest -n |T| --table with measure snp and raw, in four case layouts; (b) random pairs of width 4-400 over the full alphabet for snp/raw and mostly-A/C/G/T pairs with all four bases and <25% divergence for tn93, observed through closest -n |T| --table (|Q|x|T| distances per run), through closest -n K --table with K in {1,2,random} and an optional -d at an occurring distance (each listed row's distance is that of its own pair), through plain closest, plus swapped-file runs for symmetry; one case per run uses rows of 1.25-1.4 million columns with a million and more differing (snp, raw, -n |T| and -n 2 tables); " +
 			"distinct non-trivial = distinct (measure, symbol pair, layout) cells plus distinct (measure, n, same, P1, P2, Tv) count tuples of random pairs with at least one difference",
 		Assumptions: []string{"pairs whose distance is undefined (no jointly resolved site; tn93 log argument <= 1e-6 or a zero target base frequency) are skipped and counted, their ordering is C06's business",
 			"tn93 is compared with tolerance 1e-9 + 1e-7*|d| (9 printed decimals)"},
@@ -91,9 +91,63 @@ func checkPairDistance(measure, q, t, printed string) (string, bool) {
 	return "", false
 }
 
+// c07Megabase is one pair set at the scale of a bacterial genome: counts of a million and more
+// (where a float prints in exponent form and a 32-bit float loses the last digits).
+func c07Megabase(r *fw.Rng) fw.Result {
+	var res fw.Result
+	W := r.Range(1250000, 1400000)
+	q := strings.Repeat("A", W)
+	mk := func(n int) string { return strings.Repeat("C", n) + strings.Repeat("A", W-n) }
+	ns := []int{W - r.Range(100, 900), 1000000 + r.Intn(200000), 999999, 1000000, 2}
+	qs := []gen.FastaRec{{ID: "q", Desc: "q", Seq: q}}
+	var ts []gen.FastaRec
+	for i, n := range ns {
+		ts = append(ts, gen.FastaRec{ID: fmt.Sprintf("t%d", i), Desc: fmt.Sprintf("t%d", i), Seq: mk(n)})
+	}
+	qText, tText := gen.RenderFasta(qs, 500), gen.RenderFasta(ts, 700)
+	for _, measure := range []string{"snp", "raw"} {
+		for _, K := range []int{len(ts), 2} {
+			out, err := run.ClosestN(K, -1.0, qText, tText, measure, true, 2)
+			res.Evals++
+			argv := []string{"closest", "-m", measure, "-n", fmt.Sprint(K), "--table"}
+			files := map[string]string{"note.txt": fmt.Sprintf("query: %d x A; targets: n x C then A, n = %v (inputs of %d columns are not stored)", W, ns, W), "observed.csv": out}
+			if err != nil {
+				res.Fail("error-on-valid-input", "closest failed on megabase rows: "+err.Error(), files, argv)
+				return res
+			}
+			lines := strings.Split(strings.TrimSuffix(out, "\n"), "\n")
+			for _, l := range lines[1:] {
+				f := strings.Split(l, ",")
+				if len(f) != 3 || len(f[1]) < 2 {
+					res.Fail("table-format", "bad table row "+l, files, argv)
+					continue
+				}
+				var j int
+				fmt.Sscan(f[1][1:], &j)
+				if j < 0 || j >= len(ns) {
+					continue
+				}
+				want := strconv.Itoa(ns[j])
+				if measure == "raw" {
+					want = fmt9(float64(ns[j]) / float64(W))
+				}
+				res.Count("megabase_distances_compared_"+measure, 1)
+				res.Sig(fmt.Sprintf("mega|%s|%d", measure, j))
+				if f[2] != want {
+					res.Fail("distance-"+measure+"-megabase", fmt.Sprintf("pair q,%s over %d columns with %d differing: printed %s, definition gives %s", f[1], W, ns[j], f[2], want), files, argv)
+				}
+			}
+		}
+	}
+	return res
+}
+
 func runC07(c *fw.Ctx, idx int) fw.Result {
 	var res fw.Result
 	r := fw.NewRng(c.Seed, "C07", idx)
+	if idx == 9 {
+		return c07Megabase(r)
+	}
 	var qs, ts []gen.FastaRec
 	measure := "snp"
 	layout := -1
